@@ -64,7 +64,7 @@ def strategy_(draw, tier):
     b.cycles = draw(st.booleans())
     b.tips = draw(st.integers(0, 2)) == 0
     nchrom = draw(st.integers(1, 3))
-    names = draw(st.permutations(["chr1", "chr2", "chrX", "chr10_alt", "chr1.mat", "chr1.pat"]))[:nchrom]
+    names = draw(st.permutations(["chr1", "chr2", "chrX", "chr10_alt", "chr1.mat", "chr1.pat", "complete"]))[:nchrom]
     for name in names:
         c = b.chain(name, draw(elements()))
         if len(c["nodes"]) == 1 and draw(st.booleans()):
